@@ -212,35 +212,114 @@ Example C09_nonvacuous_tensor_swap :
   map (tensor_swap_index (steps [2; 1; 3]) (steps [1]) [2; 1; 3] [1] [(0, 2)]) (seq 0 6) = [0; 2; 4; 1; 3; 5].
 Proof. repeat split; try reflexivity; repeat constructor. Qed.
 
-(* 15. reshuffle: the permutation lists of _to_super_of_tensor (one factor
-       per super-space) and _to_tensor_of_super are mutually inverse
-       (bounded: up to 12 tensored superoperators) *)
-Theorem C09_reshuffle_orders_inverse_bounded :
-  forall s, In s (seq 0 13) ->
-    gather (tensor_of_super_order s) (super_of_tensor_order (repeat 1 s)) = seq 0 (2 * s) /\
-    gather (super_of_tensor_order (repeat 1 s)) (tensor_of_super_order s) = seq 0 (2 * s).
+(* 15. reshuffle, both directions, any number s of single-space factors:
+       _to_tensor_of_super turns (rows L, columns R) into (row, column) pairs,
+       _to_super_of_tensor undoes it, and the two are mutually inverse *)
+Theorem C09_reshuffle_round_trips :
+  forall L R : list nat, length L = length R ->
+    gather (tensor_of_super_order (length L)) (L ++ R) = interleave L R /\
+    gather (super_of_tensor_order (repeat 1 (length L))) (interleave L R) = L ++ R /\
+    gather (tensor_of_super_order (length L))
+           (gather (super_of_tensor_order (repeat 1 (length L))) (interleave L R)) = interleave L R /\
+    gather (super_of_tensor_order (repeat 1 (length L)))
+           (gather (tensor_of_super_order (length L)) (L ++ R)) = L ++ R.
 Proof.
-  intros s H.
-  assert (B : forallb (fun s =>
-     list_eqb (gather (tensor_of_super_order s) (super_of_tensor_order (repeat 1 s))) (seq 0 (2 * s))
-     && list_eqb (gather (super_of_tensor_order (repeat 1 s)) (tensor_of_super_order s)) (seq 0 (2 * s)))
-     (seq 0 13) = true) by (vm_compute; reflexivity).
-  rewrite forallb_forall in B. specialize (B s H).
-  simpl in H. repeat (destruct H as [H|H]; [subst s; split; reflexivity|]). destruct H.
+  intros L R H. destruct (reshuffle_round_trips L R H) as [A B].
+  split; [apply tensor_of_super_interleaves; exact H|].
+  split; [apply super_of_tensor_deinterleaves; exact H|]. split; assumption.
 Qed.
-Print Assumptions C09_reshuffle_orders_inverse_bounded.
+Print Assumptions C09_reshuffle_round_trips.
 
-(* 16. expand_operator: new_order is a permutation that puts factor i of the
-       operator at position targets[i] and keeps the identities in ascending
-       order on the remaining positions (bounded: registers of up to 5
-       subsystems, every duplicate-free target list) *)
-Definition expand_cases : list (nat * list nat) :=
-  flat_map (fun N => map (fun t => (N, t))
-                         (filter nodupb (lists_upto (seq 0 N) 1 N))) (seq 1 5).
-Theorem C09_expand_order_bounded :
-  forall c, In c expand_cases -> expand_ok (fst c) (snd c) = true.
-Proof. apply forallb_forall. vm_compute. reflexivity. Qed.
-Print Assumptions C09_expand_order_bounded.
+Example C09_nonvacuous_reshuffle_round_trip :
+  interleave [10; 11; 12] [20; 21; 22] = [10; 20; 11; 21; 12; 22] /\
+  tensor_of_super_order 3 = [0; 3; 1; 4; 2; 5] /\
+  super_of_tensor_order (repeat 1 3) = [0; 2; 4; 1; 3; 5].
+Proof. repeat split; reflexivity. Qed.
+
+(* 15b. reshuffle twice on a tensor of superoperators over composite spaces
+        gives one superoperator space per subsystem, in order *)
+Theorem C09_reshuffle_twice_splits_subsystems :
+  forall ls rs : list (list nat),
+    Forall2 (fun l r => length l = length r) ls rs ->
+    gather (tensor_of_super_order (length (concat ls)))
+           (gather (super_of_tensor_order (map (@length nat) ls)) (tensor_of_supers_labels ls rs))
+    = interleave (concat ls) (concat rs).
+Proof. exact reshuffle_twice_splits_subsystems. Qed.
+Print Assumptions C09_reshuffle_twice_splits_subsystems.
+
+(* 15c. the Compound branch of the PRIVATE _to_tensor_of_super (reshuffle()
+        never dispatches a Compound there, so this cannot be observed through
+        the public API): right when every factor is over at most 2
+        subsystems ... *)
+Theorem C09_private_tos_compound_small_factors :
+  forall ls rs : list (list nat),
+    Forall2 (fun l r => length l = length r) ls rs ->
+    Forall (fun l => length l <= 2) ls ->
+    gather (tos_compound_order 0 (map (@length nat) ls)) (tensor_of_supers_labels ls rs)
+    = per_factor_interleave ls rs.
+Proof. intros ls rs H S. exact (tos_compound_small_factors ls rs H S []). Qed.
+Print Assumptions C09_private_tos_compound_small_factors.
+
+(* ... and wrong for a factor over 3 subsystems.  Full statement that does NOT
+   hold for the current code: the theorem above without the `<= 2` hypothesis *)
+Theorem C09_private_tos_compound_refuted :
+  exists ls rs : list (list nat),
+    Forall2 (fun l r => length l = length r) ls rs /\
+    gather (tos_compound_order 0 (map (@length nat) ls)) (tensor_of_supers_labels ls rs)
+    <> per_factor_interleave ls rs.
+Proof. exact tos_compound_three_subsystems_wrong. Qed.
+Print Assumptions C09_private_tos_compound_refuted.
+
+(* 16. expand_operator, for every register size N and every duplicate-free
+       in-range target list: new_order is a permutation of 0..N-1 which sends
+       entry i of any per-subsystem list laid out as [operand factors...,
+       identities...] to subsystem targets[i] and the j-th identity to the
+       j-th subsystem that is not a target *)
+Theorem C09_expand_order_places_factors :
+  forall N targets, NoDup targets -> (forall t, In t targets -> t < N) ->
+    let no := expand_new_order N targets in
+    length no = N /\ NoDup no /\ (forall o, In o no -> o < N) /\
+    (forall ds i, i < length targets -> nth (nth i targets 0) (gather no ds) 0 = nth i ds 0) /\
+    (forall ds j, j < N - length targets ->
+       nth (nth j (rest_pos N targets) 0) (gather no ds) 0 = nth (length targets + j) ds 0).
+Proof.
+  intros N targets ND HB no. destruct (expand_order_perm N targets ND HB) as [A B].
+  split; [apply expand_order_length|]. split; [exact A|]. split; [exact B|]. split.
+  - intros ds i Hi. apply (expand_gather_targets N targets ND HB ds i Hi).
+  - intros ds j Hj. apply (expand_gather_rest N targets ND HB ds j Hj).
+Qed.
+Print Assumptions C09_expand_order_places_factors.
+
+Example C09_nonvacuous_expand_order :
+  NoDup [3; 0] /\ (forall t, In t [3; 0] -> t < 5) /\ expand_new_order 5 [3; 0] = [1; 2; 3; 0; 4].
+Proof.
+  split; [repeat constructor; simpl; intuition lia|]. split; [|reflexivity].
+  intros t [H|[H|[]]]; lia.
+Qed.
+
+(* 16b. the structure handed to permute.dimensions becomes dims, the order is
+        always accepted, and the flat index with digits ds (operand factors
+        first) goes to the index whose digit at subsystem targets[i] is ds[i] *)
+Theorem C09_expand_operator_index_map :
+  forall dims targets, allpos dims -> NoDup targets ->
+    (forall t, In t targets -> t < length dims) ->
+    gather (expand_new_order (length dims) targets) (expand_pre_dims dims targets) = dims /\
+    exists ix,
+      indexer_init (expand_pre_dims dims targets) (expand_new_order (length dims) targets) = inr ix /\
+      forall ds, valid (expand_pre_dims dims targets) ds ->
+        let es := gather (expand_new_order (length dims) targets) ds in
+        single ix (undigits (expand_pre_dims dims targets) ds) = undigits dims es /\
+        valid dims es /\
+        (forall i, i < length targets -> nth (nth i targets 0) es 0 = nth i ds 0) /\
+        (forall j, j < length dims - length targets ->
+           nth (nth j (rest_pos (length dims) targets) 0) es 0 = nth (length targets + j) ds 0).
+Proof.
+  intros dims targets Hp ND HB. split; [apply expand_structure_is_dims; assumption|].
+  destruct (expand_indexer_accepts dims targets Hp ND HB) as [ix Hix].
+  exists ix. split; [exact Hix|]. intros ds Hv.
+  exact (expand_index_map dims targets ix ds ND HB Hix Hv).
+Qed.
+Print Assumptions C09_expand_operator_index_map.
 
 (* 17. product theorem: the partial trace of a Kronecker product of square
        factors is the Kronecker product of the kept factors times the traces
@@ -312,3 +391,48 @@ Example C09_nonvacuous_reshuffle_groups :
   tensor_of_supers_labels [[10; 11]; [12]] [[20; 21]; [22]] = [10; 11; 20; 21; 12; 22] /\
   super_of_tensor_order [2; 1] = [0; 1; 4; 2; 3; 5].
 Proof. repeat split; repeat constructor. Qed.
+
+(* 20. partial_transpose: the dense (reshape/transpose) and the sparse (index
+       arithmetic) method put every entry at the same place *)
+Theorem C09_partial_transpose_methods_agree :
+  forall dims mask, allpos dims -> length mask = length dims ->
+  forall m n, m < prod dims -> n < prod dims ->
+    pt_dense_index dims mask (m * prod dims + n) =
+    fst (pt_sparse_index dims mask m n) * prod dims + snd (pt_sparse_index dims mask m n).
+Proof. exact pt_methods_agree. Qed.
+Print Assumptions C09_partial_transpose_methods_agree.
+
+(* 21. ... the new row index has the old column digit where the mask is set and
+       the old row digit elsewhere (symmetrically for the column index) ... *)
+Theorem C09_partial_transpose_exchanges_masked_digits :
+  forall dims mask, allpos dims -> length mask = length dims ->
+  forall m n, m < prod dims -> n < prod dims ->
+    digits dims (fst (pt_sparse_index dims mask m n)) = choose mask (digits dims m) (digits dims n) /\
+    digits dims (snd (pt_sparse_index dims mask m n)) = choose mask (digits dims n) (digits dims m).
+Proof. exact pt_sparse_digits. Qed.
+Print Assumptions C09_partial_transpose_exchanges_masked_digits.
+
+(* 22. ... it is an involution of the index pairs ... *)
+Theorem C09_partial_transpose_involution :
+  forall dims mask, allpos dims -> length mask = length dims ->
+  forall m n, m < prod dims -> n < prod dims ->
+    let p := pt_sparse_index dims mask m n in
+    fst p < prod dims /\ snd p < prod dims /\ pt_sparse_index dims mask (fst p) (snd p) = (m, n).
+Proof. exact pt_sparse_involution. Qed.
+Print Assumptions C09_partial_transpose_involution.
+
+(* 23. ... and entry (i, j) of the input is entry pt(i, j) of the output *)
+Theorem C09_partial_transpose_entries :
+  forall dims mask, allpos dims -> length mask = length dims ->
+  forall (C : Type) (c0 : C) (cadd : C -> C -> C) E i j,
+    in_range C (prod dims) E -> i < prod dims -> j < prod dims ->
+    den C c0 cadd (pt_entries_sparse C dims mask E)
+        (fst (pt_sparse_index dims mask i j)) (snd (pt_sparse_index dims mask i j))
+    = den C c0 cadd E i j.
+Proof. exact pt_entries_law. Qed.
+Print Assumptions C09_partial_transpose_entries.
+
+Example C09_nonvacuous_partial_transpose :
+  allpos [2; 3] /\ pt_sparse_index [2; 3] [true; false] 1 5 = (4, 2) /\
+  pt_sparse_index [2; 3] [true; false] 4 2 = (1, 5) /\ pt_idx [true; false] = [2; 1; 0; 3].
+Proof. repeat split; try reflexivity; repeat constructor. Qed.
